@@ -206,6 +206,30 @@ def check(run):
     comp = [n for n in own_nodes(fe.node) if isinstance(n, ast.ListComp)]
     ok = len(comp) == 1 and len(comp[0].generators) == 1 and len(comp[0].generators[0].ifs) == 1
     run.ob("R5-filters", "decoders.network.find_emails/single-filter", ok, f"{nm.rel}:{fe.lineno}", "e-mails are filtered by the domain validator only", "", mech="comprehension shape")
+    # the Pascal-string heuristic of find_urls asks whether the ten bytes before the URL are printable ASCII - and there may be none
+    if "_is_printable" in nm.funcs:
+        ip_ = nm.funcs["_is_printable"]
+        body_ = [s_ for s_ in ip_.node.body if not (isinstance(s_, ast.Expr) and isinstance(s_.value, ast.Constant))]
+        ok_ip, det_ip = False, "definition not recognised (neither decode('ascii').isprintable() nor a full match of a pattern)"
+        src_ = " ".join(norm_src(s_) for s_ in body_)
+        if ".decode('ascii').isprintable()" in src_ and "UnicodeDecodeError" in src_ and "return False" in src_:
+            ok_ip, det_ip = True, ""
+        else:
+            for c_ in [x for x in ast.walk(ip_.node) if isinstance(x, ast.Call)]:
+                d_ = prog.dotted(nm, c_.func) or ""
+                pat_ = None
+                if d_ in ("regex.fullmatch", "re.fullmatch") and c_.args:
+                    pat_ = prog.try_fold(nm, c_.args[0])
+                elif isinstance(c_.func, ast.Attribute) and c_.func.attr == "fullmatch" and isinstance(c_.func.value, ast.Name) and c_.func.value.id in nm.assigns:
+                    v_ = nm.assigns[c_.func.value.id]
+                    if isinstance(v_, ast.Call) and (prog.dotted(nm, v_.func) or "").endswith(".compile") and v_.args:
+                        pat_ = prog.try_fold(nm, v_.args[0])
+                if isinstance(pat_, bytes):
+                    same = rx.equal(rx.dfa_of(pat_, "any", "any"), rx.dfa_of(rb"[\x20-\x7e]*", "any", "any"))
+                    ok_ip = same
+                    det_ip = "" if same else f"the pattern {pat_!r} is not `[\\x20-\\x7e]*`: e.g. the empty text (no bytes before the URL) must count as printable"
+        run.ob("R5-filters", "decoders.network._is_printable/definition", ok_ip, f"{nm.rel}:{ip_.lineno}",
+               "_is_printable accepts exactly the texts of printable ASCII characters, the empty text included", det_ip, mech="definition shape / language equality")
     run.floor("R5-filters", 7)
     # ------------------------------------------------------------------ R7 extent of an embedded PE: the furthest end of raw data over ALL sections
     ps = prog.fn("decoders.pe_file.pe_size")
